@@ -5,7 +5,7 @@
                   there is no feasible point, and an answer Optimal o p is a feasible point p of objective o that no feasible
                   point undercuts;   [answers]: it never gives up (status other than optimal/infeasible).
    Only statements here; proofs are in proofs/MajorEnumProofs.v. *)
-From Aldy Require Import Base Consts Lp Enum Filter MajorModel MajorSpec MajorProofs EnumProofs MajorEnumProofs.
+From Aldy Require Import Base Consts Lp Enum Filter MajorModel MajorSpec MajorProofs EnumProofs MajorEnumProofs PlantedProofs.
 Open Scope Z_scope.
 
 (* every reported combination is admissible, and the reported score is exactly its fit error plus penalties *)
@@ -81,3 +81,20 @@ Theorem C02_reported_complete : forall (c : consts) (I : inst), inst_wf I = true
 Proof. exact reported_complete. Qed.
 Goal True. idtac "ASSUME C02_reported_complete". Abort.
 Print Assumptions C02_reported_complete.
+
+(* noise-free evidence (C01 inside the major-stage model): if the filtered evidence shows every observed core variant and every
+   reference site with exactly the planted number of copies ([planted_ok]: decidable, evaluated by the harness on every planted
+   case), the loop's result CONTAINS the planted multiset of major alleles, with score 0, and nothing yielded scores below 0 *)
+Theorem C02_reported_planted : forall (c : consts) (I : inst) (counts : list (str * Z)) (solve : Z -> lp -> sres) (r : list yield),
+  consts_wf c = true -> inst_wf I = true -> (0 <= i_major_novel I)%Q -> (0 <= i_gap I)%Q ->
+  (forall cuts, cuts_ok (gen c I) cuts -> solver_ok solve (with_cuts (gen c I) cuts)) ->
+  (forall cuts it, cuts_ok (gen c I) cuts -> solve it (with_cuts (gen c I) cuts) <> NotOptimal) ->
+  forallb (fun b : bool => b) (planted_ok c I counts) = true ->
+  solutions c solve (i_gap I) None (gen c I) = Some r ->
+  exists y, In y r /\
+    (forall al, In al (candidates I) -> zcount (i_struct I) (asg_of (y_point y)) al = count_z counts al) /\
+    (y_obj y == 0)%Q /\
+    (forall y', In y' r -> (0 <= y_obj y')%Q).
+Proof. exact major_reports_planted. Qed.
+Goal True. idtac "ASSUME C02_reported_planted". Abort.
+Print Assumptions C02_reported_planted.
